@@ -176,7 +176,12 @@ TXts ==
              ELSE LET exp == IF e.dir = "enc" THEN XtsEnc(k1, k2, tw, Data(e)) ELSE XtsDec(k1, k2, tw, Data(e))
                   IN    Chk(e.out = ToHex(exp), "C03", "xts-output", l, info)
                      \o Chk(e.rc = 0, "C16", "xts-rc", l, info \o << e.rc >>)
-                     \o LeakChecks(e, e.fam, KeySecrets(k1) \cup KeySecrets(k2) \cup {<< "encrypted-tweak", AesEncBlock(k2, tw) >>}, "xts-key-material-left")
+                     \o LeakChecks(e, e.fam, KeySecrets(k1) \cup KeySecrets(k2) \cup {<< "encrypted-tweak", AesEncBlock(k2, tw) >>}
+                                               \* the per-block tweaks E(K2, i) * alpha^j (E is one division away), look-ahead included
+                                               \cup (IF "zmm" \in DOMAIN e
+                                                     THEN LET ts == Tweaks(k2, tw, (e.data[3] \div 16) + 17)
+                                                          IN {<< "block-tweak", ts[j] >> : j \in 2..Len(ts)} ELSE {}),
+                                "xts-key-material-left")
                      \o MachineChecks(e, e.fam))
 
 TSkip == l <= NEv /\ Tr[l].e = "Mark" /\ UNCHANGED gst /\ Step(<< >>)
